@@ -1607,6 +1607,16 @@ func TestVerif_C12(t *testing.T) {
 		ioutil.WriteFile(filepath.Join(verifOut(), file), []byte(ix.String()), 0644)
 	}
 	numbered("CasesC12.idx", prodIndex)
+	// the released cases are a sub-list of the product: their own index, each line = the product line of the combination
+	var relIndex []string
+	for _, r := range rel {
+		line := fmt.Sprintf("released combination %d of the product", r.idx)
+		if r.idx >= 0 && r.idx < len(prodIndex) {
+			line = prodIndex[r.idx]
+		}
+		relIndex = append(relIndex, line)
+	}
+	numbered("CasesC12_released.idx", relIndex)
 	numbered("CasesC12_signers.idx", signerIndex)
 	numbered("CasesC12_signer_released.idx", signerRelIndex)
 	numbered("CasesC12_signer_authorize.idx", signerAuthzIndex)
